@@ -758,6 +758,9 @@ def jobs_c01(tier):
                 js.append((h_getitem_next_range, (cls, lens, s), 1800))
             for nidx in (1, 2):
                 js.append((h_getitem_next_array, (cls, lens, nidx), 1800))
+        # an empty index array: one empty list per row
+        for lens in ([(2, 2)] if cls == 'RegularArray' else [(2, 1)]) if tier == 'quick' else (regs[:6] if cls == 'RegularArray' else shapes[:10]):
+            js.append((h_getitem_next_array, (cls, lens, 0), 1800))
     return js
 
 
